@@ -598,7 +598,7 @@ func eachFieldChange(emit func(pairCase)) {
 			case wm.NameC, wm.NameU:
 				f.N = wm.MustName("Host.Example.")
 			case wm.Names:
-				f.NL = []wm.Name{wm.MustName("Rvs.Example.")}
+				f.NL = []wm.Name{wm.MustName("Rvs.Example."), wm.MustName("Second.Rvs.Example.")}
 			case wm.Str, wm.Rest, wm.L8, wm.L16:
 				f.B = []byte("Abc")
 				if s.Hint == "nsec3next" {
@@ -680,6 +680,13 @@ func eachFieldChange(emit func(pairCase)) {
 				c := cloneRec(a)
 				c.Fields[i].N = c.Fields[i].N.Lower()
 				emit(pairCase{A: a, B: c, C: a, How: "rdata-name-case"})
+			}
+			if layout[i].K == wm.Names {
+				for j := range a.Fields[i].NL {
+					c := cloneRec(a)
+					c.Fields[i].NL[j] = c.Fields[i].NL[j].Lower()
+					emit(pairCase{A: a, B: c, C: a, How: "rdata-name-case"})
+				}
 			}
 		}
 	}
